@@ -44,6 +44,7 @@ class Req(pg.Object):
     ]).noneable(), 'dict with a required key'),
     ('pl', pg.typing.List(pg.typing.Dict([('r', pg.typing.Int())]), max_size=3).noneable(),
      'list of dicts with a required key'),
+    ('mn', pg.typing.List(pg.typing.Int(), min_size=1, max_size=3).noneable(), 'list with a min size'),
     ('ro', pg.typing.Object(Req).noneable(), 'object with a required field'),
     ('rl', pg.typing.List(pg.typing.Object(Req), default=[]), 'list of such objects'),
 ])
@@ -236,6 +237,11 @@ def build(desc, symbolic=True):
         # a typed pg.Dict / pg.List value with its own (compatible) value spec,
         # complete or partial (created with allow_partial=True, a required key missing)
         which, partial = desc[1], desc[2]
+        if which == 'mn':
+            # a list that carries a (compatible) spec of its own without a min size;
+            # `partial` doubles as its length here
+            n = {False: 0, True: 1, 'scoped': 2}[partial]
+            return pg.List(list(range(n)), value_spec=pg.typing.List(pg.typing.Int(), max_size=3))
         if which in ('ro', 'rl'):
             # partial == 'scoped': made partial inside pg.allow_partial(True); the
             # object's own allow_partial flag stays False
